@@ -167,14 +167,14 @@ func c15Stacks(t *testing.T) {
 		}
 		// The PC of the Inc call inside leaf differs from the PC Callers(1) records
 		// for leaf itself, so take the PCs from the StackCounter's own cache below.
-		pv, stack := guarded(func() {
+		pv, stack := vfGuarded(func() {
 			for rep := 0; rep < 2; rep++ {
 				c15Run(prog, 0, leaf)
 			}
 		})
 		res.Eval()
 		if pv != nil {
-			res.Violate("inc-panic:"+topFrame(stack), fmt.Sprintf("StackCounter.Inc panicked: %v\n%.1000s", pv, stack), replay)
+			res.Violate("inc-panic:"+vfTopFrame(stack), fmt.Sprintf("StackCounter.Inc panicked: %v\n%.1000s", pv, stack), replay)
 			continue
 		}
 		names := sc.Names()
@@ -296,7 +296,7 @@ func c15Stacks(t *testing.T) {
 			res.Hit("ditto-used")
 		}
 		if i < 2 {
-			res.Sample(map[string]any{"case": i, "prog": fmt.Sprint(prog), "depth": depth, "frames": len(frames), "name_bytes": len(name), "name_head": trunc40(strings.ReplaceAll(name, "\n", "⏎"))})
+			res.Sample(map[string]any{"case": i, "prog": fmt.Sprint(prog), "depth": depth, "frames": len(frames), "name_bytes": len(name), "name_head": vfTrunc40(strings.ReplaceAll(name, "\n", "⏎"))})
 		}
 	}
 	res.Require("counter-name-near-limit", "inlined-frame-of-another-package", "non-ascii-symbol", "truncated", "untruncated", "generic-frame", "ditto-used", "via-file", "stack-deeper-than-32")
@@ -340,7 +340,7 @@ func c15Decode(t *testing.T) {
 		res.Distinct(s)
 		var out string
 		verifrt.SetTickBudget(int64(len(s))*4 + 100000)
-		pv, stack := guarded(func() { out = DecodeStack(s) })
+		pv, stack := vfGuarded(func() { out = DecodeStack(s) })
 		over := verifrt.TickExceeded()
 		verifrt.SetTickBudget(0)
 		replay := verifrt.CaseReplay(i, map[string]any{"input": fmt.Sprintf("%.200q", s)})
@@ -349,7 +349,7 @@ func c15Decode(t *testing.T) {
 			continue
 		}
 		if pv != nil {
-			res.Violate("decode-panic:"+topFrame(stack), fmt.Sprintf("DecodeStack panicked: %v", pv), replay)
+			res.Violate("decode-panic:"+vfTopFrame(stack), fmt.Sprintf("DecodeStack panicked: %v", pv), replay)
 			continue
 		}
 		hasNL := strings.Contains(s, "\n")
